@@ -130,6 +130,7 @@ def parse_output(out: str) -> TLCResult:
             ("is violated" in e and ("Invariant" in e or "Action property" in e or "property" in e.lower()))
             or "Deadlock reached" in e
             or "Temporal properties were violated" in e
+            or ("Temporal property" in e and "was violated" in e)
         ):
             viol = e
             break
@@ -137,7 +138,7 @@ def parse_output(out: str) -> TLCResult:
         res.ok = False
         res.violation = viol
         res.trace = _parse_trace(lines)
-    elif errors and not all("The behavior up to this point" in e or "The following behavior" in e for e in errors):
+    elif errors and not all("The behavior up to this point" in e or "The following behavior" in e or "behavior constitutes" in e for e in errors):
         # Distinguish postcondition failure (used for trace validation: handled by caller) from real machinery errors
         if any("Postcondition" in e or "postcondition" in e.lower() for e in errors):
             res.ok = False
